@@ -66,6 +66,8 @@ def body_agree(kind: int, form: int, t: int, name: str, tail: str, port: int) ->
         q.uninstall()
     hx.reach()
     pn = dl.PROTO_NAMES[kind]
+    for (qa, qkw, qtok) in q.q:
+        hx.require(qkw.get("bytes") or qkw.get("errors") == "surrogateescape", "C06:quote-error-handler:%s" % pn, lambda: "quote(%r, %r)" % (qa, qkw))
     # display name
     hx.require(nx == name, "C06:display-name-differs:%s" % pn, lambda: "entry name=%r rendered=%r parsed=%r" % (name, text, nx))
     if kind == 0:
@@ -201,7 +203,7 @@ def body_slash(kind: int, u: str) -> bool:
     return True
 
 
-def body_search(kind: int, s: str) -> bool:
+def body_search(kind: int, s: str, emptysel: bool = False) -> bool:
     """The search string submitted through each protocol's own mechanism reaches handler selection
     through one decoding step with the surrogateescape error handler (URL protocols: one
     percent-decoding of exactly the submitted query, not form-decoding of '+')."""
@@ -264,7 +266,7 @@ def body_search(kind: int, s: str) -> bool:
             finally:
                 HM.getHandler = sv
         else:
-            req, tls = rl.client_request(kind, "/wap/d" if kind == 3 else "/d", s)
+            req, tls = rl.client_request(kind, "/wap/d" if kind == 3 else ("" if (emptysel and kind in (0, 1, 6)) else "/d"), s)
             if kind == 4:
                 # urlparse realizes: contract stub returning the raw components
                 gemini.urllib = hx.ns(parse=hx.ns(urlparse=lambda u: hx.ns(path="/d", query=s), unquote=unquote, quote=urllib.parse.quote, unquote_plus=urllib.parse.unquote_plus, urlsplit=urllib.parse.urlsplit))
@@ -279,6 +281,8 @@ def body_search(kind: int, s: str) -> bool:
         urllib.parse.unquote, urllib.parse.parse_qs = saved
     hx.reach()
     hx.require(len(seen) == 1, "C06:search-request-not-handled:%s" % dl.PROTO_NAMES[kind], lambda: repr(seen))
+    if emptysel and kind in (0, 1, 6):
+        hx.require(seen[0][0] == "/", "C06:empty-selector-search-misparsed:%s" % dl.PROTO_NAMES[kind], lambda: "request=%r reached handler selection as %r" % (req, seen[0]))
     got = seen[0][1]
     if kind in (0, 1, 6):
         want = s
@@ -299,7 +303,7 @@ def obligations(tier, seed):
     for kind in KINDS:
         for form in range(len(FORMS)):
             obs.append(Ob(id="C06.2-agree[%s,%s]" % (dl.PROTO_NAMES[kind], FORMS[form]), body="harness.C06:body_agree", sig="kind: int, form: int, t: int, name: str, tail: str, port: int",
-                          pre=["kind == %d" % kind, "form == %d" % form, "0 <= t < %d" % len(TYPES), "1 <= len(name) <= %d" % n, "all(c in 'n <&' + chr(34) for c in name)", "name == name.strip()",
+                          pre=["kind == %d" % kind, "form == %d" % form, "0 <= t < %d" % len(TYPES), "len(name) <= %d" % n, "all(c in 'n <&' + chr(34) for c in name)", "name == name.strip()",
                                "len(tail) <= %d" % n, "all(c in 'a ?%' for c in tail)", "port == 70 or port == 7070"], timeout=300 if tier == "quick" else 1500,
                           desc="%s rendering of a %s entry, parsed back by an independent parser of that format: display name, item kind and target equal the entry's (so all protocols agree pairwise)"
                                % (dl.PROTO_NAMES[kind], FORMS[form]),
@@ -320,7 +324,7 @@ def obligations(tier, seed):
                       pre=["kind == %d" % kind, "1 <= len(u) <= %d" % (2 if tier == "quick" else 3), "all(c in 'a/.' for c in u)"], timeout=300,
                       desc="%s: /u and /u/ reach handler selection as the same selector" % dl.PROTO_NAMES[kind], bounds="|u| <= %d over {a / .}" % (2 if tier == "quick" else 3),
                       functions=["protocols.*.handle", "slashnormalize"]))
-        obs.append(Ob(id="C06.5-search[%s]" % dl.PROTO_NAMES[kind], body="harness.C06:body_search", sig="kind: int, s: str",
+        obs.append(Ob(id="C06.5-search[%s]" % dl.PROTO_NAMES[kind], body="harness.C06:body_search", sig="kind: int, s: str, emptysel: bool",
                       pre=["kind == %d" % kind, "1 <= len(s) <= %d" % (2 if tier == "quick" else 3), "all(c in 'a+% ' + chr(0xdcff) for c in s)"], timeout=300,
                       desc="%s: the submitted search string reaches handler selection through exactly one decoding with errors=surrogateescape (no '+'-to-blank form decoding for URL queries)" % dl.PROTO_NAMES[kind],
                       bounds="|s| <= %d over {a + %% SPACE U+DCFF}" % (2 if tier == "quick" else 3), functions=["protocols.*.handle/canhandlerequest"]))
